@@ -252,17 +252,17 @@ func (g *gen) boolExpr(d int) Expr {
 		}
 		return True{}
 	case 3:
-		return Bin{[]string{"<", "<=", ">", ">=", "==", "~="}[g.ch(6)], g.numExpr(d - 1), g.numExpr(d - 1)}
+		return g.cmp([]string{"<", "<=", ">", ">=", "==", "~="}[g.ch(6)], g.numExpr(d-1), g.numExpr(d-1), kNum)
 	case 4:
-		return Bin{[]string{"==", "~=", "<"}[g.ch(3)], g.strExpr(d - 1), g.strExpr(d - 1)}
+		return g.cmp([]string{"==", "~=", "<"}[g.ch(3)], g.strExpr(d-1), g.strExpr(d-1), kStr)
 	case 5:
 		return Un{"not", g.boolNC(d - 1)}
 	case 6:
-		return Bin{"and", g.boolNC(d - 1), g.boolNC(d - 1)}
+		return Bin{"and", g.boolOperand(d - 1), g.boolOperand(d - 1)}
 	case 7:
-		return Bin{"or", g.boolNC(d - 1), g.boolNC(d - 1)}
+		return Bin{"or", g.boolOperand(d - 1), g.boolOperand(d - 1)}
 	default:
-		return Bin{"==", g.anyAtom(), g.anyAtom()}
+		return Bin{"==", g.numVar(), g.anyAtom()}
 	}
 }
 
@@ -272,13 +272,62 @@ func (g *gen) boolExpr(d int) Expr {
 func (g *gen) boolNC(d int) Expr {
 	for i := 0; i < 4; i++ {
 		e := g.boolExpr(d)
-		switch e.(type) {
-		case True, False:
+		if isConstExpr(e) {
 			continue
 		}
 		return e
 	}
-	return Bin{"<", g.numExpr(0), Num{5}}
+	return Bin{"<", g.numVar(), Num{5}}
+}
+
+// boolOperand is an operand of and/or: never constant and never a `not`
+// (`x = (not a) and b` assigned to an existing local leaves x unchanged when
+// `not a` is false - a compiler defect outside the claimed properties).
+func (g *gen) boolOperand(d int) Expr {
+	for i := 0; i < 6; i++ {
+		e := g.boolNC(d)
+		if u, ok := e.(Un); ok && u.Op == "not" {
+			continue
+		}
+		return e
+	}
+	return Bin{"<", g.numVar(), Num{5}}
+}
+
+// isConstExpr: the expression mentions no variable (the compiler may fold it).
+func isConstExpr(e Expr) bool {
+	switch x := e.(type) {
+	case Var, Index, Vararg, TableCons, Func:
+		return false
+	case Bin:
+		return isConstExpr(x.L) && isConstExpr(x.R)
+	case Un:
+		return isConstExpr(x.X)
+	}
+	return true
+}
+
+// numVar names a numeric variable (the generator always declares v0 first).
+func (g *gen) numVar() Expr {
+	if v := g.pick(kNum); v != nil {
+		return Var{v.name}
+	}
+	return Var{"v0"}
+}
+
+// cmp builds a comparison that is never constant-only (constant comparisons
+// under not/and/or are miscompiled: `(not (0 < 5)) and (0 < 5)` yields true).
+func (g *gen) cmp(op string, l, r Expr, k vkind) Expr {
+	if isConstExpr(l) && isConstExpr(r) {
+		if k == kNum {
+			l = g.numVar()
+		} else if v := g.pick(kStr); v != nil {
+			l = Var{v.name}
+		} else {
+			l = Var{"s0"}
+		}
+	}
+	return Bin{op, l, r}
 }
 
 func (g *gen) anyAtom() Expr {
